@@ -90,6 +90,7 @@ class MemberOracle(RaftOracle):
         self.prev_last = {}                  # host -> last log index before the current event
         self.seen_member_entries = {}        # host -> set of (idx, term) membership entries already examined
         self.removed_committed = {}          # target idx -> position
+        self.seen_blobs = {}
 
     # -- bookkeeping -----------------------------------------------------------------------
     def on_member_request(self, tag, kind, via, target):
@@ -202,6 +203,7 @@ class MemberOracle(RaftOracle):
             return
         ents = log[:]
         self.prev_last[touched] = ents[-1][1]
+        self._check_snapshot_members(h, n)
         commit = n.raftCommitIndex
         state = priv(n, 'SyncObj', 'raftState')
         term = n.raftCurrentTerm
@@ -286,6 +288,41 @@ class MemberOracle(RaftOracle):
                         # it cannot commit (its voters have moved to newer terms). What must not happen is that both
                         # DECIDE, which commit_conflict / not_majority / two_leaders judge. Recorded as coverage.
                         w.probe('leaders_with_non_intersecting_member_majorities')
+
+    def _check_snapshot_members(self, h, n):
+        """In-memory snapshots: the member set a snapshot stores is the one the common sequence defines at the snapshot's
+        position (changes appended after it - committed or not - are not part of it)."""
+        import gzip as _gz
+        import io as _io
+        import pickle as _pk
+        ser = priv(n, 'SyncObj', 'serializer')
+        if priv(ser, 'Serializer', 'fileName') is not None:
+            return
+        blob = priv(ser, 'Serializer', 'inMemorySerializedData')
+        if blob is None or self.seen_blobs.get(h.idx) == id(blob):
+            return
+        self.seen_blobs[h.idx] = id(blob)
+        if h.extra.get('joiner'):
+            return          # a joiner's operator-given member list may be ahead of its log (see the member_set rule)
+        try:
+            d = _pk.load(_gz.GzipFile(fileobj=_io.BytesIO(bytes(blob))))
+        except Exception:
+            return          # C09 judges undecodable snapshots
+        k = d[1][1]
+        if len(d) < 4 or not self._extend_fold(k):
+            return
+        have = frozenset(i for i in (self.addr_to_idx.get(nd.id) for nd in d[3]) if i is not None)
+        want = self.fold[k]
+        self.w.probe('snapshot_member_sets_checked')
+        if have != want:
+            # classification for the known finding (commit-time re-application, see above)
+            re = want
+            for p in range(2, k + 1):
+                dq = self.Gdec.get(p)
+                if dq is not None and dq[0] == 'member':
+                    re = self._apply_member(re, dq)
+            self.flag('member_set_mismatch', 'host %d: its snapshot of position %d stores the member set %r; the membership commands of the common sequence up to %d give %r' % (
+                h.idx, k, sorted(have), k, sorted(want)), dict(reapplied_at_commit=(have == re), snapshot=k))
 
     def on_start(self, host):
         if host.extra.get('joiner'):
